@@ -207,10 +207,13 @@ def run(prog, ctx):
                       "|block|^2 over all stored blocks whenever every index is ket-like or p is True (even and odd parity)")
     ctx.rule("R10.5", "abstract evaluation: for two-tensor networks <psi|psi> is the same signed sum of products whether the contracted array or "
              "each tensor is conjugated (bra-like dangling legs sign-flipped), site by site or ket first, and every |a b|^2 enters with +1")
-    from rules.sem_adjoint import check_adjoint, check_networks
+    ctx.rule("R10.7", "abstract evaluation: for three-tensor chains <psi|psi> is the same signed sum of products whether the contracted array "
+             "or each tensor is conjugated, with both groupings and zipped up site by site from either end, and every |a b c|^2 enters with +1")
+    from rules.sem_adjoint import check_adjoint, check_chain3, check_networks
 
     check_adjoint(prog, ctx)
     check_networks(prog, ctx)
+    check_chain3(prog, ctx)
     # R10.1 compares the TEXT of conj and dagger (def-use extraction). It can only add confidence: whether the two implementations agree in
     # behaviour is decided by R10.3 / R10.4 above. It is therefore run on a scratch context; what it finds is reported only when the
     # behavioural rules found something too, otherwise it is recorded as a note (a refactor may change the form without changing behaviour).
